@@ -11,15 +11,16 @@ vars == <<scope, prog>>
 IntLits == {IntV(0), IntV(1), IntV(2), IntV(3), IntV(5), IntV(7)}
 StrLits == {Str("a"), Str("b"), Str("ab"), Str("")}
 ListLits == {List(<<IntV(1), IntV(2), IntV(3)>>), List(<<IntV(4)>>), List(<<IntV(9)>>), List(<<IntV(2), IntV(2)>>), List(<<IntV(5), IntV(1)>>), List(<<IntV(1), IntV(2), IntV(1), IntV(2), IntV(1), IntV(2)>>),
-             List(<<IntV(1), IntV(2), IntV(3), IntV(4), IntV(5)>>), List(<<Str("a"), Str("b")>>), List(<<Str("ab")>>)}
+             List(<<IntV(1), IntV(2), IntV(3), IntV(4), IntV(5)>>), List(<<Str("a"), Str("b")>>), List(<<Str("ab")>>),
+             List(<<Str("b"), Str("a")>>), List(<<Str("b"), Str("ab"), Str("a")>>), List(<<Str("ab"), Str("b"), Str("a"), Str("b")>>)}
 SetLits == {Set({IntV(1), IntV(2)}), Set({IntV(2), IntV(3)}), Set({IntV(7)}), Set({IntV(1), IntV(2), IntV(3), IntV(4)}),
             Set({Str("a"), Str("ab")}), Set({Str("b")})}
 Lits == IntLits \cup StrLits \cup ListLits \cup SetLits \cup {Bool(TRUE), Bool(FALSE)}
 
 AllOps == {"add", "sub", "mul", "div", "mod", "lt", "le", "gt", "ge", "eq", "ne", "cat", "and", "neg", "ite",
-        "lcat", "union", "count", "in", "notin", "where", "tform", "tconst", "tset", "lit", "mkmap", "attr", "mapt", "call", "rodd", "rsum", "rall", "rlist"}
-Ops == IF Focus = "concat" THEN {"lit", "lcat", "union"} ELSE IF Focus = "collections" THEN {"lit", "lcat", "union", "count", "where", "tform", "tconst", "tset", "mkmap", "attr", "mapt"} ELSE AllOps
-Arity(op) == IF op \in {"neg", "count", "lit", "attr", "rodd", "rsum", "rall", "rlist"} THEN 1 ELSE IF op \in {"ite", "mkmap"} THEN 3 ELSE 2
+        "lcat", "union", "count", "in", "notin", "where", "tform", "tconst", "tset", "lit", "mkmap", "attr", "mapt", "call", "rodd", "rsum", "rall", "rlist", "sflat"}
+Ops == IF Focus = "concat" THEN {"lit", "lcat", "union"} ELSE IF Focus = "collections" THEN {"lit", "lcat", "union", "count", "where", "tform", "tconst", "tset", "mkmap", "attr", "mapt", "sflat", "in", "notin"} ELSE AllOps
+Arity(op) == IF op \in {"neg", "count", "lit", "attr", "rodd", "rsum", "rall", "rlist", "sflat"} THEN 1 ELSE IF op \in {"ite", "mkmap"} THEN 3 ELSE 2
 
 \* kind of a value incl. the element kind of collections (an empty collection counts as one of integers)
 EK(v) == LET ks == ElemKinds(v) IN IF ks = {} THEN "int" ELSE CHOOSE x \in ks : TRUE
@@ -32,6 +33,7 @@ Sigs(op) ==
     [] op = "cat" -> {<<"str", "str">>}
     [] op = "and" -> {<<"bool", "bool">>}
     [] op \in {"neg", "rodd", "rsum", "rall", "rlist"} -> {<<"int">>}
+    [] op = "sflat" -> {<<"list:str">>}
     [] op = "ite" -> {<<"bool", "int", "int">>, <<"bool", "str", "str">>}
     [] op = "lcat" -> {<<"list:int", "list:int">>, <<"list:str", "list:str">>}
     [] op = "union" -> {<<"set:int", "set:int">>, <<"set:str", "set:str">>}
